@@ -63,10 +63,14 @@ def reject_cases(lw, rng, c, nn):
         ("noninteger_mode", lambda: c.ps(0.5, 0.1)),
         ("noninteger_mode", lambda: c.bs(0, 1.5)),
         ("equal_modes", lambda: c.bs(0, 0)),
-        ("reflectivity", lambda: c.bs(0, 1, float(rng.choice([1.5, -0.1, 1 + 1e-6])))),
-        ("loss", lambda: c.bs(0, 1, 0.5, float(rng.choice([-0.1, 1.5])))),
-        ("loss", lambda: c.ps(0, 0.2, float(rng.choice([-0.1, 1.5])))),
-        ("loss", lambda: c.loss(0, float(rng.choice([-1e-9, 1.0000001])))),
+        ("reflectivity", lambda: c.bs(0, 1, float(rng.choice([1.5, -0.1, 1 + 1e-6] + HAIR_OUTSIDE)))),
+        ("loss", lambda: c.bs(0, 1, 0.5, float(rng.choice([-0.1, 1.5] + HAIR_OUTSIDE)))),
+        ("loss", lambda: c.ps(0, 0.2, float(rng.choice([-0.1, 1.5] + HAIR_OUTSIDE)))),
+        ("loss", lambda: c.loss(0, float(rng.choice([-1e-9, 1.0000001] + HAIR_OUTSIDE)))),
+        ("loss", lambda: c.bs(0, 1, 0.5, lw.Parameter(float(rng.choice([1.5] + HAIR_OUTSIDE[:3]))))),
+        ("not_a_number", lambda: c.bs(0, 1, float("nan"))),
+        ("not_a_number", lambda: c.loss(0, float("nan"))),
+        ("not_a_number", lambda: c.bs(0, 1, 0.5, float("nan"))),
         ("loss", lambda: c.loss(0, "a")),
         ("loss", lambda: c.loss(0, True)),
         ("convention", lambda: c.bs(0, 1, 0.5, 0, "X")),
@@ -83,6 +87,10 @@ def reject_cases(lw, rng, c, nn):
         ("add_non_circuit", lambda: c.add(np.eye(2), 0)),
     ]
     return out
+
+
+# values a hair outside [0, 1]: a call that raises for them must leave the circuit untouched like any other
+HAIR_OUTSIDE = [float(np.nextafter(1.0, 2.0)), 1 + 2.0 ** -40, 1 + 1e-10, -5e-324, -1e-15, float(np.nextafter(0.0, -1.0))]
 
 
 def parent_with_ancillas(lw, rng, b, log):
